@@ -390,6 +390,19 @@ func (r *runner) emitPartial() {
 // roundTrip: oracle 6, a session of a realm that was not removed does
 // subscribe / publish(ack) / call round trips with latency 0.
 func (r *runner) roundTrips(removed string) {
+	r.mu.Lock()
+	var lost []string
+	for _, s := range r.sess {
+		if s.spec.Realm != removed && s.welcome && !s.transient && s.gone != "" && s.expGone == "" {
+			lost = append(lost, fmt.Sprintf("s%d of realm %s ended: %s", s.idx, s.spec.Realm, s.gone))
+		}
+	}
+	r.mu.Unlock()
+	if len(lost) > 0 {
+		r.orc("oracle 6 (other realms unaffected): FAILED: %s", strings.Join(lost, "; "))
+		r.violation("other-realm-affected", strings.Join(lost, "; "), false)
+		return
+	}
 	var tested []*sess
 	for _, s := range r.sess {
 		if s.spec.Realm == removed || r.live(s.idx) == nil || s.stalled {
